@@ -361,6 +361,7 @@ package websocket
 //@ ensures [exhausted-fails] {C08} old(mr.limitReader.n) == 0 ==> n == 0 && err != nil && !errIs(err, io.EOF)
 //@ ensures [unlimited] {C08} old(mr.limitReader.n) < 0 ==> mr.limitReader.n == old(mr.limitReader.n)
 //@ ensures [ok-keeps] {C18 C19} (err == nil || err == io.EOF) && old(mr.c.br != nil) ==> connOpen(mr.c) && mr.c.br == old(mr.c.br) && !gvcHeld(mr.c.readMu.ch)
+//@ ensures [flate-reader-released] {C07} err == io.EOF ==> mr.flateReader == nil
 
 // ---------------------------------------------------------------------------
 // compress.go: the 32 KiB sliding window kept as inflate dictionary (C01)
@@ -645,6 +646,17 @@ package websocket
 
 //@ func (*Conn).Reader
 //@ inline
+
+//@ func (*Conn).Read
+//@ tags C08 C04
+//@ note public entry point: one message, read through the limit reader by io.ReadAll; nothing in this function sizes memory by what a frame header declares
+//@ requires connReady(c) && ctx != nil && !gvcHeld(c.readMu.ch) && !gvcHeld(c.writeFrameMu.ch) && !gvcHeld(c.msgWriter.writeMu.ch) && (c.br != nil || gvcClosed(c.closed)) && ghconn(io.Reader(c.msgReader.readFunc)) == c && c.msgReader.readFunc != nil
+//@ opt noframe=mem:u8
+//@ modifies $RDFP, $WRFP, $CLFP, c.msgReader.ctx, c.msgReader.flate, c.msgReader.limitReader.n, c.msgReader.limitReader.r, c.msgReader.fin, c.msgReader.payloadLength, c.msgReader.maskKey, c.msgReader.flateBufio, c.msgReader.flateTail
+//@ ensures [one-message] gvcCalls("(*Conn).reader") == 1 && gvcCallArg[context.Context]("(*Conn).reader", 1) == ctx
+//@ ensures [reader-fails] gvcCallRes[error]("(*Conn).reader", 2) != nil ==> result2 == gvcCallRes[error]("(*Conn).reader", 2) && len(result1) == 0 && gvcCalls("io.ReadAll") == 0
+//@ ensures [streams-through-limit] {C08} gvcCallRes[error]("(*Conn).reader", 2) == nil ==> gvcCalls("io.ReadAll") == 1 && gvcCallArg[io.Reader]("io.ReadAll", 0) == gvcCallRes[io.Reader]("(*Conn).reader", 1) && gvcSameSlice(result1, gvcCallRes[[]byte]("io.ReadAll", 0)) && result2 == gvcCallRes[error]("io.ReadAll", 1) && result0 == gvcCallRes[MessageType]("(*Conn).reader", 0)
+//@ ensures [no-clean-truncation] {C04} result2 != io.EOF
 
 //@ func (*Conn).Writer
 //@ tags C02 C05 C06
@@ -1067,3 +1079,55 @@ package websocket
 //@ requires nc != nil && nc.readTimer != nil && nc.writeTimer != nil
 //@ modifies nc.readExpired, nc.writeExpired
 //@ ensures [both] nc.readExpired == 0 && nc.writeExpired == 0 && result == nil && gvcCalls("(*netConn).SetWriteDeadline") == 1 && gvcCalls("(*netConn).SetReadDeadline") == 1
+
+// ---------------------------------------------------------------------------
+// internal/bpool (C19, C07): a buffer goes back to the pool only after it was emptied
+
+//@ func bpool.Put
+//@ tags C19 C07
+//@ requires b != nil
+//@ ensures [reset-before-pooled] gvcCalls("(*bytes.Buffer).Reset") == 1 && gvcCallArg[*bytes.Buffer]("(*bytes.Buffer).Reset", 0) == b && gvcCalls("(*sync.Pool).Put") == 1 && gvcCallSeq("(*bytes.Buffer).Reset") < gvcCallSeq("(*sync.Pool).Put")
+
+// The two timer callbacks installed by NetConn (function literals 1 and 2 of NetConn, in
+// source order): a deadline that fires while a call holds the adapter's mutex cancels that
+// call's context (which fails the call and closes the connection, C10); one that fires while
+// no call is active only sets the expired flag and releases the mutex again.
+
+//@ func NetConn$1
+//@ tags C18
+//@ requires netConnInv(nc)
+//@ modifies chanstate(nc.writeMu.ch), nc.writeExpired
+//@ requires [not-mine] !gvcHeld(nc.writeMu.ch)
+//@ ensures [probes-own-mutex] gvcCalls("(*mu).tryLock") == 1 && gvcCallArg[*mu]("(*mu).tryLock", 0) == nc.writeMu
+//@ ensures [active-call-cancelled] !gvcCallRes[bool]("(*mu).tryLock", 0) ==> gvcCalls("context.CancelFunc") == 1 && nc.writeExpired == old(nc.writeExpired)
+//@ ensures [cancels-own-side] gvcCalls("context.CancelFunc") == 1 ==> gvcSameRef(gvcCallArg[context.CancelFunc]("context.CancelFunc", 0), nc.writeCancel)
+//@ ensures [idle-expires] gvcCallRes[bool]("(*mu).tryLock", 0) ==> gvcCalls("context.CancelFunc") == 0 && nc.writeExpired == 1 && !gvcHeld(nc.writeMu.ch)
+//@ ensures [at-most-one-cancel] gvcCalls("context.CancelFunc") <= 1
+//@ ensures [read-side-untouched] nc.readExpired == old(nc.readExpired)
+
+//@ func NetConn$2
+//@ tags C18
+//@ requires netConnInv(nc)
+//@ modifies chanstate(nc.readMu.ch), nc.readExpired
+//@ requires [not-mine] !gvcHeld(nc.readMu.ch)
+//@ ensures [probes-own-mutex] gvcCalls("(*mu).tryLock") == 1 && gvcCallArg[*mu]("(*mu).tryLock", 0) == nc.readMu
+//@ ensures [active-call-cancelled] !gvcCallRes[bool]("(*mu).tryLock", 0) ==> gvcCalls("context.CancelFunc") == 1 && nc.readExpired == old(nc.readExpired)
+//@ ensures [cancels-own-side] gvcCalls("context.CancelFunc") == 1 ==> gvcSameRef(gvcCallArg[context.CancelFunc]("context.CancelFunc", 0), nc.readCancel)
+//@ ensures [idle-expires] gvcCallRes[bool]("(*mu).tryLock", 0) ==> gvcCalls("context.CancelFunc") == 0 && nc.readExpired == 1 && !gvcHeld(nc.readMu.ch)
+//@ ensures [at-most-one-cancel] gvcCalls("context.CancelFunc") <= 1
+//@ ensures [write-side-untouched] nc.writeExpired == old(nc.writeExpired)
+
+//@ func NetConn
+//@ tags C18
+//@ requires connInv(c) && ctx != nil
+//@ modifies ghi64(&c.msgReader.limitReader.limit).val
+//@ ensures [adapter] result != nil && result.(*netConn).c == c && result.(*netConn).msgType == msgType && gvcFresh(result.(*netConn))
+//@ ensures [inv1] result.(*netConn).readMu != nil && result.(*netConn).writeMu != nil && result.(*netConn).readMu.c == c && result.(*netConn).writeMu.c == c && result.(*netConn).readMu.ch != nil && result.(*netConn).writeMu.ch != nil
+//@ ensures [inv2] result.(*netConn).readCtx != nil && result.(*netConn).writeCtx != nil
+//@ ensures [inv-distinct-1] gvcDistinct7(result.(*netConn).readMu.ch, result.(*netConn).writeMu.ch, c.closed, c.readMu.ch, c.writeFrameMu.ch, c.msgWriter.mu.ch, c.msgWriter.writeMu.ch)
+//@ ensures [inv-distinct-2] gvcDistinct7(result.(*netConn).readMu.ch, result.(*netConn).writeMu.ch, c.readTimeout, c.writeTimeout, c.closed, c.readMu.ch, c.writeFrameMu.ch)
+//@ note the conjuncts of netConnInv are established one by one ([adapter], [inv1], [inv2], [inv-distinct-1], [inv-distinct-2]); stated as the single predicate netConnInv(result) the obligation is not discharged (freshness facts established while evaluating a nested spec function with early returns are lost at its merge points): a limit of the tool, not of the code
+//@ ensures [not-expired] result.(*netConn).readExpired == 0 && result.(*netConn).writeExpired == 0 && !result.(*netConn).readEOFed && result.(*netConn).reader == nil
+//@ ensures [timers] result.(*netConn).readTimer != nil && result.(*netConn).writeTimer != nil
+//@ ensures [limit-disabled] gvcCalls("(*Conn).SetReadLimit") == 1 && gvcCallArg[int64]("(*Conn).SetReadLimit", 1) == -1 && gvcCallArg[*Conn]("(*Conn).SetReadLimit", 0) == c
+//@ ensures [locks-free] !gvcHeld(result.(*netConn).readMu.ch) && !gvcHeld(result.(*netConn).writeMu.ch)
